@@ -462,13 +462,12 @@ Definition block_end (cur : N) : M unit :=
 
 Definition slow_check : M unit := fun st => if s_slow st then (Ok tt, st) else (Err EData, st).
 
-Fixpoint ser (n : fnode) (v : sval) {struct v} : M unit :=
-  let at_key (k : nat) (v' : sval) : M unit :=
-    match fnode_at Sc k with None => fail (Panic PIndex) | Some n' => ser n' v' end in
+(* The pieces below are parameterised by the recursive calls of the serializer:
+   serk k v = serialize v at the node with key k; serstr v = serialize v at a String node (map keys). *)
   (* serialize_record_value *)
-  let record_value (fields : list (bytes * nat)) (rs : recstate) (idx k : nat) (v' : sval) : M recstate :=
+Definition record_value (serk : nat -> sval -> M unit) (fields : list (bytes * nat)) (rs : recstate) (idx k : nat) (v' : sval) : M recstate :=
     if Nat.eqb idx (r_cur rs) then
-      do* _ <- at_key k v';
+      do* _ <- serk k v';
       if negb (Nat.ltb (r_cur rs) (length fields)) then fail (Panic PExpectedFieldsUnwrap) else
       flush_ready (length fields) (length fields) true (mkR (S (r_cur rs)) (r_bufs rs) (r_cap rs))
     else
@@ -481,7 +480,7 @@ Fixpoint ser (n : fnode) (v : sval) {struct v} : M unit :=
           fun st =>
             match pop_buf st with
             | (Ok (start, cap), st1) =>
-                match with_buffer start (at_key k v') st1 with
+                match with_buffer start (serk k v') st1 with
                 | (Ok (_, content), st2) =>
                     let cap' := cap || negb (Nat.eqb (length content) 0) in
                     (Ok (mkR (r_cur rs1) (list_set bufs idx (Some (content, cap'))) (r_cap rs1)), st2)
@@ -495,14 +494,16 @@ Fixpoint ser (n : fnode) (v : sval) {struct v} : M unit :=
             | (OutOfFuel, st1) => (OutOfFuel, st1)
             | (Unmodelled, st1) => (Unmodelled, st1)
             end
-      end in
+      end.
+
   (* the state Drop sees when record_value fails: buffers may have been resized *)
-  let record_value_rs_on_error (rs : recstate) (idx : nat) : recstate :=
+Definition record_value_rs_on_error  (rs : recstate) (idx : nat) : recstate :=
     if Nat.eqb idx (r_cur rs) then rs
     else mkR (r_cur rs) (resize_to (r_bufs rs) (S idx) None)
-             (r_cap rs || Nat.ltb (length (r_bufs rs)) (S idx)) in
+             (r_cap rs || Nat.ltb (length (r_bufs rs)) (S idx)).
+
   (* struct fields presented to a record / map / duration *)
-  let struct_fields :=
+Definition struct_fields (serk : nat -> sval -> M unit) :=
     fix go (kind : rkind) (rs : recstate) (blk : N) (dur : list (option N)) (fs : list (bytes * sval))
         {struct fs} : sstate -> (result (recstate * N * list (option N)) * recstate * sstate) :=
       fun st =>
@@ -513,7 +514,7 @@ Fixpoint ser (n : fnode) (v : sval) {struct v} : M unit :=
           | RKRecord fields =>
               match rec_field_idx fields rs key with
               | Ok (idx, k) =>
-                  match record_value fields rs idx k v' st with
+                  match record_value serk fields rs idx k v' st with
                   | (Ok rs', st') => go kind rs' blk dur rest st'
                   | (Err e, st') => (Err e, record_value_rs_on_error rs idx, st')
                   | (Panic p, st') => (Panic p, record_value_rs_on_error rs idx, st')
@@ -528,7 +529,7 @@ Fixpoint ser (n : fnode) (v : sval) {struct v} : M unit :=
           | RKMap values =>
               match (do* blk' <- block_next blk;
                      do* _ <- ser_str_leaf key FString;
-                     do* _ <- at_key values v';
+                     do* _ <- serk values v';
                      sret blk') st with
               | (Ok blk', st') => go kind rs blk' dur rest st'
               | (Err e, st') => (Err e, rs, st')
@@ -553,9 +554,10 @@ Fixpoint ser (n : fnode) (v : sval) {struct v} : M unit :=
                   end
               end
           end
-      end in
+      end.
+
   (* the calls of SerializeMap: hint = the pending key *)
-  let map_calls :=
+Definition map_calls (serk : nat -> sval -> M unit) (serstr : sval -> M unit) :=
     fix go (kind : rkind) (rs : recstate) (blk : N) (dur : list (option N))
            (hint : option (nat * nat)) (calls : list (option sval * option sval))
         {struct calls} : sstate -> (result (recstate * N * list (option N)) * recstate * sstate) :=
@@ -580,7 +582,7 @@ Fixpoint ser (n : fnode) (v : sval) {struct v} : M unit :=
                       match hint' with
                       | None => (Panic PSerKeyBeforeValue, rs, st)
                       | Some (idx, k) =>
-                          match record_value fields rs idx k v' st with
+                          match record_value serk fields rs idx k v' st with
                           | (Ok rs', st') => go kind rs' blk dur None rest st'
                           | (Err e, st') => (Err e, record_value_rs_on_error rs idx, st')
                           | (Panic p, st') => (Panic p, record_value_rs_on_error rs idx, st')
@@ -596,10 +598,10 @@ Fixpoint ser (n : fnode) (v : sval) {struct v} : M unit :=
               end
           | RKMap values =>
               match (do* blk' <- (match ko with
-                                  | Some k' => do* b <- block_next blk; do* _ <- ser FString k'; sret b
+                                  | Some k' => do* b <- block_next blk; do* _ <- serstr k'; sret b
                                   | None => sret blk
                                   end);
-                     do* _ <- (match vo with Some v' => at_key values v' | None => sret tt end);
+                     do* _ <- (match vo with Some v' => serk values v' | None => sret tt end);
                      sret blk') st with
               | (Ok blk', st') => go kind rs blk' dur hint rest st'
               | (Err e, st') => (Err e, rs, st')
@@ -643,9 +645,10 @@ Fixpoint ser (n : fnode) (v : sval) {struct v} : M unit :=
               | Unmodelled => (Unmodelled, rs, st)
               end
           end
-      end in
+      end.
+
   (* finish a struct/map presentation: end() then Drop *)
-  let finish (kind : rkind)
+Definition finish  (kind : rkind)
              (r : result (recstate * N * list (option N)) * recstate * sstate) : sres sstate unit :=
     match r with
     | (res, rs_drop, st) =>
@@ -686,9 +689,10 @@ Fixpoint ser (n : fnode) (v : sval) {struct v} : M unit :=
             | OutOfFuel => (OutOfFuel, st) | Unmodelled => (Unmodelled, st)
             end
         end
-    end in
+    end.
+
   (* serialize_struct_or_struct_variant after the by-name step, and serialize_map *)
-  let start_kind (len_ok_duration : bool) (min_len : N) (n' : fnode)
+Definition start_kind  (len_ok_duration : bool) (min_len : N) (n' : fnode)
                  (run : rkind -> recstate -> N -> sstate ->
                         (result (recstate * N * list (option N)) * recstate * sstate)) : M unit :=
     match n' with
@@ -703,16 +707,17 @@ Fixpoint ser (n : fnode) (v : sval) {struct v} : M unit :=
         then fun st => finish RKDuration (run RKDuration (mkR O [] false) 0 st)
         else fail (Err EData)
     | _ => fail (Err EData)
-    end in
+    end.
+
   (* elements of a seq / tuple / tuple struct / tuple variant *)
-  let seq_leaf (len : option N) (vs : list sval) (n' : fnode) : M unit :=
+Definition seq_leaf (serk : nat -> sval -> M unit) (len : option N) (vs : list sval) (n' : fnode) : M unit :=
     match n' with
     | FArray items =>
         do* blk <- block_new (match len with Some l => l | None => 0 end);
         do* blk' <- (fix go (blk : N) (vs : list sval) {struct vs} : M N :=
                        match vs with
                        | [] => sret blk
-                       | v' :: rest => do* b <- block_next blk; do* _ <- at_key items v'; go b rest
+                       | v' :: rest => do* b <- block_next blk; do* _ <- serk items v'; go b rest
                        end) blk vs;
         block_end blk'
     | FDuration =>
@@ -780,7 +785,11 @@ Fixpoint ser (n : fnode) (v : sval) {struct v} : M unit :=
                        end) size vs;
         if remaining =? 0 then sret tt else fail (Err EData)
     | _ => fail (Err EData)
-    end in
+    end.
+
+Fixpoint ser (n : fnode) (v : sval) {struct v} : M unit :=
+  let at_key (k : nat) (v' : sval) : M unit :=
+    match fnode_at Sc k with None => fail (Panic PIndex) | Some n' => ser n' v' end in
   match v with
   | SBool b =>
       via_union Sc n KBoolean (fun n' => match n' with FBoolean => write [if b then 1 else 0] | _ => fail (Err EData) end)
@@ -821,27 +830,27 @@ Fixpoint ser (n : fnode) (v : sval) {struct v} : M unit :=
         end)
   | SNewtypeStruct nm v' => do* n' <- named_step Sc n nm; ser n' v'
   | SNewtypeVariant _ _ variant v' => do* n' <- named_step Sc n variant; ser n' v'
-  | SSeq len vs => via_union Sc n KSeqOrTupleOrTupleStruct (seq_leaf len vs)
-  | STuple vs => via_union Sc n KSeqOrTupleOrTupleStruct (seq_leaf (Some (N.of_nat (length vs))) vs)
-  | STupleStruct _ vs => via_union Sc n KSeqOrTupleOrTupleStruct (seq_leaf (Some (N.of_nat (length vs))) vs)
+  | SSeq len vs => via_union Sc n KSeqOrTupleOrTupleStruct (seq_leaf at_key len vs)
+  | STuple vs => via_union Sc n KSeqOrTupleOrTupleStruct (seq_leaf at_key (Some (N.of_nat (length vs))) vs)
+  | STupleStruct _ vs => via_union Sc n KSeqOrTupleOrTupleStruct (seq_leaf at_key (Some (N.of_nat (length vs))) vs)
   | STupleVariant _ _ variant vs =>
       do* n' <- named_step Sc n variant;
-      via_union Sc n' KSeqOrTupleOrTupleStruct (seq_leaf (Some (N.of_nat (length vs))) vs)
+      via_union Sc n' KSeqOrTupleOrTupleStruct (seq_leaf at_key (Some (N.of_nat (length vs))) vs)
   | SMap len calls =>
       via_union Sc n KStructOrMap (fun n' =>
         start_kind (match len with Some l => l =? 3 | None => true end)
                    (match len with Some l => l | None => 0 end) n'
-                   (fun kind rs blk => map_calls kind rs blk [None; None; None] None calls))
+                   (fun kind rs blk => map_calls at_key (ser FString) kind rs blk [None; None; None] None calls))
   | SStruct nm len fs =>
       do* n' <- named_step Sc n nm;
       via_union Sc n' KStructOrMap (fun n'' =>
         start_kind (len =? 3) len n''
-                   (fun kind rs blk => struct_fields kind rs blk [None; None; None] fs))
+                   (fun kind rs blk => struct_fields at_key kind rs blk [None; None; None] fs))
   | SStructVariant _ _ variant len fs =>
       do* n' <- named_step Sc n variant;
       via_union Sc n' KStructOrMap (fun n'' =>
         start_kind (len =? 3) len n''
-                   (fun kind rs blk => struct_fields kind rs blk [None; None; None] fs))
+                   (fun kind rs blk => struct_fields at_key kind rs blk [None; None; None] fs))
   | SFail => fail (Err EData)
   end.
 
